@@ -329,6 +329,10 @@ def run(rep, ctx):
         from .. import symrules as _SRa
         _SRa.orbit_source(rep, M, "R08.6")
         _SRa.index_spaces(rep, M, "R08.6")
+    rep.rule("R08.7", "the sets whose parameters are solved are assembled per orbit with the letter of the chosen normalizer (shared with C06/C07)")
+    with rep.guard("R08.7"):
+        from . import shared as _sh
+        _sh.normal_form(rep, ctx.model, "R08.7")
     rep.floor("R08.1", 26000)
     rep.floor("R08.2", 1500)
     rep.floor("R08.3", 1700)
